@@ -178,6 +178,7 @@ class Engine:
         self.globals_decl = {}    # 'rel::name' -> type string, for mutable module globals modelled on the heap
         self.stats = {'paths': 0, 'feas_checks': 0}
         self.rec_axioms = []
+        self.probes = []          # vacuity probes (goal False under the assumptions in force; must not be provable)
 
     # ------------------------------------------------------------------ driving
     def verify(self, key):
